@@ -330,6 +330,10 @@ func (d *tDecoder) decodeType(t *tType, b []byte, p unsafe.Pointer, maxdepth int
 				}
 				*(*unsafe.Pointer)(tmp) = sliceV
 				tmp = sliceV
+			} else if vt.T == tSTRUCT {
+				// struct values are decoded into the pooled tmp var field by field:
+				// clear it, or fields absent from this entry keep data of the previous one.
+				v.SetZero()
 			}
 			if vt.FixedSize > 0 {
 				i += decodeFixedSizeTypes(vt.T, b[i:], tmp)
